@@ -1029,7 +1029,7 @@ class Oracle:
 # ---------------------------------------------------------------- generator
 OID_POOL = [b'abcdefgh', b'00000001', b'ABCDEFGH', b"a\nb'c\\d\"", b'\x80\xff\x00\x01abcd', b'\xff' * 8,
             b'........', b'Q.Q.Q.Q.', b'\x00' * 7 + b'.', b'\x7f' * 8, b'\x00\x00\x00\x00\x00\x00\x01\x00',
-            b'(tRq\x00U\x08', b'\x00\x01\x02\x03\x04\x05\x06\x07', b'cposix\nx', b'12345678', b'\r\n\r\n\t\t  ']
+            b'(tRq\x00U\x08.', b'\x00\x01\x02\x03\x04\x05\x06\x07', b'cposix\nx', b'12345678', b'\r\n\r\n\t\t  ']
 
 
 def gen_oids(rng, n):
@@ -1126,7 +1126,7 @@ def gen_case(rng, thorough=False):
                 ops.append(['add', home[n], n])
         if ndb == 2:
             for n in fresh:
-                if home[n] == 1 and rng.random() < 0.5:
+                if home[n] == 1 and rng.random() < 0.8:
                     ops.append(['add', 1, n])
         if rng.random() < 0.04:
             victim = rng.choice(fresh)
